@@ -198,8 +198,8 @@ func runProperty(w *World, prop string, timeout time.Duration, all bool, workdir
 	type job struct {
 		u *UnitResult
 	}
+	solveUnits(pr.Units, solveOpts{timeout: timeout, all: all, workdir: filepath.Join(workdir, prop), par: runtime.NumCPU()})
 	for _, ur := range pr.Units {
-		solveUnit(ur, solveOpts{timeout: timeout, all: all, workdir: filepath.Join(workdir, prop), par: runtime.NumCPU()})
 		for _, o := range ur.Obligs {
 			if o.Canary {
 				pr.Canary = append(pr.Canary, o)
